@@ -17,7 +17,9 @@ class C03(Prop):
     thorough_n = 60000
     rule = ("prior holdings reached through a random trade history (long, short, leveraged, mixed spot/futures), then a "
             "rebalance to target weights (negative, > 1, zeros) or numbers of contracts with no threshold, then an "
-            "immediate second rebalance to the same target; fees and spreads of all kinds. Non-trivial = non-empty "
+            "immediate second rebalance to the same target; fees and spreads of all kinds; in a quarter of the cases a request "
+            "that has to buy a contract whose ask has just disappeared is refused first, the ask comes back and every quote "
+            "moves. Non-trivial = non-empty "
             "prior holdings and (a held contract absent from the target, or a short/leveraged target, or a margined "
             "contract targeted under a spread, or the nr-contracts measure); distinct = distinct cases")
     nontrivial_tags = {"untargeted-held", "short-target", "leveraged-target", "margined-spread", "nr-contracts", "interest-credited"}
@@ -51,6 +53,24 @@ class C03(Prop):
             rr = rng.choice(["1/32", "1/10", "3/100", "1/5"])
             c["ops"] = [["q", "RATE", bs.T0, rr, rr], ["accrue", bs.T0, 1]] + c["ops"]
             c["interest"] = True
+        if rng.random() < 0.25 and keys:
+            # a refused request first: the ask of one contract disappears, a request that has to buy it is refused while
+            # its trades are being built, the ask comes back and every quote moves; the request that follows must be
+            # sized on the account as it is then
+            kq = rng.choice(keys)
+            lastq = {}
+            for op in c["ops"]:
+                if op[0] == "q" and op[1] != "RATE" and "nan" not in (op[3], op[4]):
+                    lastq[op[1]] = op
+            if kq in lastq:
+                b0, a0 = lastq[kq][3], lastq[kq][4]
+                pre = [["q", kq, t - 4, b0, "nan"], ["rebal", t - 3, 1, 1, 1, "0", {kq: "1/4"}], ["q", kq, t - 2, b0, a0]]
+                for kk, op in lastq.items():
+                    mid = (Fraction(op[3]) + Fraction(op[4])) / 2
+                    _, b2, a2 = bs.gen_price(rng, exact, mid)
+                    pre.append(["q", kk, t - 1, fr(b2), fr(a2)])
+                c["ops"] += pre
+                c["_refused_first"] = True
         first = ["rebal", t, int(by_weight), 1, 1, "0", tgt]
         if rng.random() < 0.25 and keys:
             # the request is previewed with make_trades(), a quote then moves, and the same request object is executed:
@@ -80,6 +100,14 @@ def judge_c03(r, s):
     rebs = [o for o in s.obs if o["op"][0] == "rebal"]
     if not rebs:
         return
+    if s.case.get("_refused_first"):
+        # the planted request that has to buy an unquoted contract: refused, and not the one being judged
+        r.tags.add("refused-request-first")
+        if rebs[0].get("status") == "ok":
+            r.fail("unpriced-leg-not-refused", theorem="rebalance_missing_quote_errors (C13)")
+        rebs = rebs[1:]
+        if not rebs:
+            return
     first = rebs[0]
     i0 = s.obs.index(first)
     if first.get("status") != "ok":
@@ -91,6 +119,14 @@ def judge_c03(r, s):
     tgt = {k: v for k, v in rb["target"].items() if k != "USD" and v != 0}
     nlv_pre = first["nlv_pre"]
     tol = first["tol"] * 10
+    # "the NLV measured just before trading" is the account's NLV at that moment: the recorded figure is checked against
+    # the independent ledger (deposit + interest - commissions + marked positions), and the ledger's is the reference
+    led = first.get("exp_nlv_pre")
+    if led is not None and nlv_pre is not None and abs(led - nlv_pre) > tol:
+        r.fail("pre-trade-nlv-wrong", recorded=float(nlv_pre), ledger=float(led), theorem="nlv_identity (C01)",
+               clause="... equal to w x the NLV measured just before trading")
+    if led is not None:
+        nlv_pre = led
     quotes = first["quotes"]
     before = first["pos_before"]
     if any(q != 0 for q in before.values()):
